@@ -486,10 +486,14 @@ fn thread_text(job: &HTJob) -> String {
     format!("prologue {:?}; threads {:?}", crate::hyb::prog_text(&job.prologue), job.threads)
 }
 
-fn explore_job(prop: &THProp, job: &HTJob, res: &mut ShardResult, deadline: Instant, max_execs: u64) -> bool {
+/// `split = (i, n)`: this process explores the root execution's alternatives number ≡ i (mod n) only (the
+/// root itself is counted by process 0); the executions are deterministic, so every process derives the same
+/// list of alternatives and the subtrees partition the schedule space of the job.
+fn explore_job(prop: &THProp, job: &HTJob, res: &mut ShardResult, deadline: Instant, max_execs: u64, split: (usize, usize)) -> bool {
     let mut keep = true;
     let mut stack: Vec<Vec<u32>> = vec![vec![]];
     let mut execs = 0u64;
+    let mut at_root = true;
     while let Some(prefix) = stack.pop() {
         if execs >= max_execs || Instant::now() >= deadline {
             res.capped = true;
@@ -526,17 +530,20 @@ fn explore_job(prop: &THProp, job: &HTJob, res: &mut ShardResult, deadline: Inst
             std::process::exit(vcore::EXIT_MACHINERY);
         }
         execs += 1;
-        res.add("executions", 1);
-        res.add("th_executions", 1);
-        res.add("steps", out.steps as u64);
-        res.add("context_switches", out.switches as u64);
-        res.add("runtime_steps", out.rt_steps);
-        res.add("choice_points", ctx.points.len() as u64);
-        res.add("disk_hits", out.disk_hits);
-        res.add("memory_hits", out.mem_hits);
-        res.add("io_writes", out.io_writes);
-        res.max("max_enabled", ctx.points.iter().map(|p| p.n).max().unwrap_or(0) as u64);
-        res.fp(out.fp);
+        let counted = !(at_root && split.0 != 0);
+        if counted {
+            res.add("executions", 1);
+            res.add("th_executions", 1);
+            res.add("steps", out.steps as u64);
+            res.add("context_switches", out.switches as u64);
+            res.add("runtime_steps", out.rt_steps);
+            res.add("choice_points", ctx.points.len() as u64);
+            res.add("disk_hits", out.disk_hits);
+            res.add("memory_hits", out.mem_hits);
+            res.add("io_writes", out.io_writes);
+            res.max("max_enabled", ctx.points.iter().map(|p| p.n).max().unwrap_or(0) as u64);
+            res.fp(out.fp);
+        }
         let mut cost = 0usize;
         let mut costs = vec![];
         for p in ctx.points.iter() {
@@ -559,6 +566,21 @@ fn explore_job(prop: &THProp, job: &HTJob, res: &mut ShardResult, deadline: Inst
                 let mut np: Vec<u32> = ctx.points[..i].iter().map(|q| q.chosen).collect();
                 np.push(alt);
                 stack.push(np);
+            }
+        }
+        if at_root {
+            at_root = false;
+            if split.1 > 1 {
+                let mut idx = 0usize;
+                stack.retain(|_| {
+                    let mine = idx % split.1 == split.0;
+                    idx += 1;
+                    mine
+                });
+            }
+            if !counted {
+                // the root's verdict belongs to process 0
+                continue;
             }
         }
         let mut stop = false;
@@ -799,21 +821,20 @@ impl Prop for THProp {
         }
         let max_execs = if tier == Tier::Thorough { 100_000 } else { 20_000 };
         for (i, job) in js.iter().enumerate() {
-            if i % shard.1 != shard.0 {
-                continue;
-            }
             if Instant::now() >= deadline {
                 res.capped = true;
                 res.notes.insert("wall cap reached before all hybrid thread programs were explored".into());
                 break;
             }
-            if res.samples.len() < 1 {
+            if res.samples.len() < 1 && shard.0 == 0 {
                 res.sample(json!({"engine": "TH", "job": job}), 1);
             }
-            res.add("th_programs", 1);
+            if shard.0 == 0 {
+                res.add("th_programs", 1);
+            }
             let before = res.get("th_executions");
             let t0 = Instant::now();
-            let keep = explore_job(self, job, &mut res, deadline, max_execs);
+            let keep = explore_job(self, job, &mut res, deadline, max_execs, shard);
             if std::env::var_os("VERIF_TH_STATS").is_some() {
                 eprintln!("TH job {i}: {} executions in {:.1}s :: {} on {}", res.get("th_executions") - before, t0.elapsed().as_secs_f64(), thread_text(job), job.cfg.name());
             }
